@@ -284,6 +284,12 @@ impl DegreeMeta for Expression {
                 result
             }
             Phi { meta, args } => {
+                // Which argument the phi expression takes is decided by the conditions on the paths
+                // to the block. If such a condition is not constant the value is not a polynomial in
+                // the signals, whatever the degrees of the arguments are (cf. the switch expression).
+                if env.is_conditional_join() {
+                    return result;
+                }
                 // The degree range of a phi expression is the infimum of the ranges of all the arguments.
                 let range = DegreeRange::iter_opt(args.iter().map(|arg| env.degree(arg)));
                 if let Some(range) = range {
